@@ -338,36 +338,50 @@ def label_of(bn):
     return str(bn)
 
 
-def run_report(comp_hist, par_hist, text, supply_parent_first=True):
-    """-> (obs_comp, obs_parent, error)"""
+def run_reports(comps, par_hist, text, supply):
+    """comps: component histories in the order the owner declares them; supply: repository ids in the
+    order they are handed to ReposCollection.  -> ({component: obs_comp}, obs_parent, error)"""
     from ak import ghist
     try:
         with c06.guarded():
-            lib = gm.project(comp_hist['name'], comp_hist)
-            app = gm.project(par_hist['name'], par_hist, components=[comp_hist['name']])
-            repos = [(app.repo_id, app), (lib.repo_id, lib)]
-            if not supply_parent_first:
-                repos.reverse()
-            data = dict(ghist.ReposCollection(dict(repos)).make_reports_data(text))
-            obs_comp = []
-            for rbranch in data[comp_hist['name']].branches:
-                for rb in rbranch.get_rbuilds_list():
-                    if rb.rcommit is None:
-                        continue
-                    obs_comp.append((rb.rcommit.commit.intid,
-                                     [(str(x[0]), str(x[1]), label_of(x[2])) for x in rb.included_at]))
+            projects = {c['name']: gm.project(c['name'], c) for c in comps}
+            projects[par_hist['name']] = gm.project(par_hist['name'], par_hist,
+                                                    components=[c['name'] for c in comps])
+            data = dict(ghist.ReposCollection({r: projects[r] for r in supply}).make_reports_data(text))
+            obs = {}
+            for c in comps:
+                obs_comp = obs[c['name']] = []
+                for rbranch in data[c['name']].branches:
+                    for rb in rbranch.get_rbuilds_list():
+                        if rb.rcommit is None:
+                            continue
+                        obs_comp.append((rb.rcommit.commit.intid,
+                                         [(str(x[0]), str(x[1]), label_of(x[2])) for x in rb.included_at]))
             obs_parent = {}
             for rbranch in data[par_hist['name']].branches:
                 obs_parent[str(rbranch.branch_name)] = [
                     rb.rcommit.commit.intid for rb in rbranch.get_rbuilds_list() if rb.rcommit is not None]
-        return obs_comp, obs_parent, None
+        return obs, obs_parent, None
     except c06.Budget:
         return None, None, f"no result within {c06.CALL_BUDGET_S} s"
     except Exception as e:      # noqa
         return None, None, f"{type(e).__name__}: {e}"
 
 
+def run_report(comp_hist, par_hist, text, supply_parent_first=True):
+    """-> (obs_comp, obs_parent, error)"""
+    supply = [par_hist['name'], comp_hist['name']]
+    if not supply_parent_first:
+        supply.reverse()
+    obs, obs_parent, err = run_reports([comp_hist], par_hist, text, supply)
+    if err is not None:
+        return None, None, err
+    return obs[comp_hist['name']], obs_parent, None
+
+
 def evaluate(case):
+    if 'libs' in case:
+        return evaluate_multi(case)
     comp_hist, par_hist, text = case['lib'], case['app'], case['text']
     obs_comp, obs_parent, err = run_report(comp_hist, par_hist, text, case.get('parent_first', True))
     if err is not None:
@@ -376,6 +390,94 @@ def evaluate(case):
         return [('included_at_first', kind, f"make_reports_data({text!r}) gives no report: {err}")], facts, None
     fails, facts = check(comp_hist, par_hist, text, obs_comp, obs_parent)
     return fails, facts, {'component_builds': obs_comp, 'parent_builds': obs_parent}
+
+
+# ---- an owner repository pinning several components ----
+
+SEVERAL = 'several-components'
+
+
+def same_shape(x, y):
+    """two component histories that differ in nothing the reduction of the history looks at: the same
+    commit ids, parents, branches, the same commits built (equally often) and matching"""
+    def sig(h):
+        return (sorted((d['id'], tuple(d.get('parents', [])), len(build_versions(d)), TEXT in d.get('msg', ''))
+                       for d in h['commits']),
+                sorted((b, hd) for b, hd in h['branches']))
+    return sig(x) == sig(y)
+
+
+def check_multi(comps, par_hist, text, obs, obs_parent):
+    """the statement's clauses hold for every component the owner pins, each on its own: what is demanded
+    for the builds of one component is a function of that component's history, of the owner's history and
+    of the owner's pins of THAT component only.
+    obs: {component: obs_comp as in check()}.  -> (fails, facts)"""
+    fails, per = [], {}
+    for comp in comps:
+        f, facts = check(comp, par_hist, text, obs.get(comp['name'], []), obs_parent)
+        per[comp['name']] = facts
+        for clause, ksuf, txt in f:
+            if clause == 'included_at_first':
+                ksuf = ksuf.split(':')[0] + ':' + SEVERAL
+            fails.append((clause, ksuf, f"[component {comp['name']}] {txt}"))
+    merged = {}
+    for facts in per.values():
+        for k, v in facts.items():
+            if isinstance(v, bool):
+                merged[k] = merged.get(k, False) or v
+            elif isinstance(v, int):
+                merged[k] = max(merged.get(k, 0), v)
+    merged['n_firsts'] = sum(f['n_firsts'] for f in per.values())
+    merged['shape'] = SEVERAL
+    # facts about the interplay of the pins (spec side only)
+    psp = c06.Spec(par_hist)
+    info = {}
+    for comp in comps:
+        ys = sorted({y for y, _ in obs.get(comp['name'], [])})
+        _, firsts = expected_included(comp, par_hist, ys)
+        csp = c06.Spec(comp)
+        pin = {i: pinned_commit(comp, d) for i, d in psp.commits.items()}
+        info[comp['name']] = (comp, csp, pin, ys, firsts)
+    one_moves = same_position = both_move = False
+    for x_info, y_info in itertools.permutations(info.values(), 2):
+        xc, xsp, xpin, xys, xfirsts = x_info
+        yc, _, ypin, _, yfirsts = y_info
+        for b, d in yfirsts.items():
+            for P in d:
+                if P in xfirsts.get(b, {}):
+                    both_move = True
+                    continue
+                # the pin of X names a build with report content and is what an earlier build of the branch
+                # pinned already, while the pin of Y moved across a report-related build
+                if xpin[P] is None or not any(xsp.contains(xpin[P], y) for y in xys):
+                    continue
+                earlier = [P2 for P2 in psp.builds[b] if P2 != P and psp.contains(P, P2)]
+                if any(xpin[P2] == xpin[P] and ypin[P2] != ypin[P] for P2 in earlier):
+                    one_moves = True
+                    if ypin[P] == xpin[P] and same_shape(xc, yc):
+                        same_position = True
+    allt = [d.get('t', 0) for h in list(comps) + [par_hist] for d in h['commits']]
+    merged['span_days'] = (max(allt) - min(allt)) // DAY
+    merged.update({
+        'components': len(comps),
+        'components_with_firsts': sum(1 for v in info.values() if any(v[4].values())),
+        'one_pin_moves': one_moves,
+        'one_pin_moves_to_twin_position': same_position,
+        'two_pins_move_at_once': both_move,
+    })
+    return fails, merged
+
+
+def evaluate_multi(case):
+    comps, par_hist, text = case['libs'], case['app'], case['text']
+    supply = case.get('supply') or [par_hist['name']] + [c['name'] for c in comps]
+    obs, obs_parent, err = run_reports(comps, par_hist, text, supply)
+    if err is not None:
+        _, facts = check_multi(comps, par_hist, text, {}, {})
+        kind = 'budget' if err.startswith('no result') else 'raises-' + err.split(':')[0]
+        return [('included_at_first', kind, f"make_reports_data({text!r}) gives no report: {err}")], facts, None
+    fails, facts = check_multi(comps, par_hist, text, obs, obs_parent)
+    return fails, facts, {'component_builds': obs, 'parent_builds': obs_parent}
 
 
 # ------------------------------------------------------------------------------------------------
@@ -695,7 +797,156 @@ def gen_case_spread(seed, index):
             return case
 
 
+# ---- third family: an owner repository pinning 2-3 components ----
+
+MULTI_BASE = 2_000_000           # case indices >= MULTI_BASE belong to the third family
+COMP_NAMES = ['abc', 'kit', 'lib', 'zed']       # before and after the owner's name in every usual ordering
+
+
+def _as_component(comp, name, major, shift):
+    """the same history as another repository: renamed, its releases numbered major.x, all build numbers
+    shifted by `shift` (order and distinctness are preserved)"""
+    out = json.loads(json.dumps(comp))
+    out['name'] = name
+    for d in out['commits']:
+        tags = []
+        for t in d.get('tags', []):
+            parsed = gm.parse_build_tag(t)
+            m = parsed and gm.RE_RELEASE_IN_TAG.match(parsed[1])
+            tags.append(gm.release_tag(parsed[0] + shift, major, int(m.group(2))) if m else t)
+        if tags:
+            d['tags'] = tags
+    return out
+
+
+def gen_parent_multi(rnd, comps, spread):
+    """owner of several components: as gen_parent / gen_parent_spread with one pin per component in every
+    commit, every pin monotone on its own; which pins move in a commit is drawn per component, so builds
+    moving one pin, several pins or none all occur"""
+    k = len(comps)
+    specs = [c06.Spec(c) for c in comps]
+    targets, versions, ctime = [], [], []
+    for comp, csp in zip(comps, specs):
+        reach = set()
+        for _, h in comp['branches']:
+            reach |= csp.anc_or_self(h)
+        tg = [c['id'] for c in comp['commits'] if gm.is_build_commit(c) and c['id'] in reach]
+        if not tg:
+            return None
+        targets.append(tg)
+        versions.append({c['id']: build_versions(c) for c in comp['commits']})
+        ctime.append({c['id']: c.get('t', 0) for c in comp['commits']})
+    n = rnd.randint(2, 10)
+    if rnd.random() < .4:
+        tagged = {i for i in range(1, n + 1) if rnd.random() < .7}
+    else:
+        tagged = set(rnd.sample(range(1, n + 1), rnd.randint(0, min(5, n))))
+    match = set(rnd.sample(range(1, n + 1), rnd.choice([0, 0, 0, 1, 2])))
+    roots = 1 if rnd.random() < .85 else 2
+    stay = rnd.choice([.5, .7, .85])
+    key_order = list(range(k))
+    rnd.shuffle(key_order)
+    flat_times = sorted(40000 + rnd.randrange(40000) for _ in range(n))
+    pins, pinver, ptime = {}, {}, {}
+    commits = []
+
+    def candidates(parents):
+        return [[t for t in targets[j] if all(specs[j].contains(t, pins[p][j]) for p in parents)]
+                for j in range(k)]
+    for i in range(1, n + 1):
+        if i <= roots:
+            parents = []
+        else:
+            r = rnd.random()
+            if r < .2 and i > 2:
+                parents = sorted(rnd.sample(range(1, i), 2), reverse=rnd.random() < .5)
+            elif r < .72:
+                parents = [i - 1]
+            else:
+                parents = [rnd.randrange(1, i)]
+        cands = candidates(parents)
+        if not all(cands) and len(parents) == 2:
+            parents = parents[:1]           # the two lines cannot be merged with monotone pins
+            cands = candidates(parents)
+        if not all(cands):
+            return None
+        pins[i], pinver[i] = [], []
+        for j in range(k):
+            keep = [t for t in cands[j] if any(pins[p][j] == t for p in parents)]
+            if keep and rnd.random() < stay:
+                pj = rnd.choice(keep)
+            elif not parents:
+                pj = cands[j][0] if rnd.random() < .6 else rnd.choice(cands[j])
+            else:
+                pj = rnd.choice(cands[j])
+            floor = max([pinver[p][j] for p in parents], default=(0, 0, 0))
+            vs = [v for v in versions[j][pj] if v >= floor]
+            if not vs:
+                return None
+            pins[i].append(pj)
+            pinver[i].append(rnd.choice(vs))
+        if spread:
+            # after the parents; after every pinned build, or behind the youngest of them by < 1 day
+            newest = max(ctime[j][c] for j in range(k) for c in specs[j].anc_or_self(pins[i][j]))
+            if rnd.random() < .15:
+                after = newest - rnd.randint(0, COMPONENT_WINDOW - 1)
+            else:
+                after = newest + (rnd.randint(60, 20000) if rnd.random() < .6 else rnd.randint(20000, 2 * DAY))
+            ptime[i] = max([ptime[p] + _delta(rnd) for p in parents] + [after])
+        else:
+            ptime[i] = flat_times[i - 1]
+        depends = {comps[j]['name']: '.'.join(str(x) for x in pinver[i][j]) for j in key_order}
+        d = {'id': i, 'parents': parents, 't': ptime[i],
+             'msg': f"{TEXT} app change {i}" if i in match else f"app work {i}",
+             'files': {'DEPENDS': json.dumps(depends)}}
+        if i in tagged:
+            d['tags'] = [gm.release_tag(10 + i, 5, rnd.choice([4, 5]))]
+        commits.append(d)
+    names = rnd.sample(['release/5.4', 'release/5.5', 'release/5.10'], rnd.randint(0, 2)) + ['master']
+    branches = []
+    for nm in names:
+        head = rnd.randint(max(1, n - 2), n) if rnd.random() < .5 else rnd.randint(1, n)
+        branches.append([nm, head])
+    rnd.shuffle(branches)
+    return {'name': PARENT, 'commits': commits, 'branches': branches}
+
+
+def gen_case_multi(seed, index):
+    """2-3 components, each drawn as in the first two families or an identically shaped copy of an earlier
+    one (another repository with the same history: other name, other numbers), declared by the owner and
+    supplied to ReposCollection in any order"""
+    rnd = random.Random(seed * 7_000_003 + MULTI_BASE * 31 + index)
+    while True:
+        spread = rnd.random() < .3
+        k = rnd.choice([2, 2, 2, 3])
+        names = rnd.sample(COMP_NAMES, k)
+        same_numbers = rnd.random() < .4        # the components' versions may coincide, too
+        comps = []
+        for j in range(k):
+            if comps and rnd.random() < .45:
+                base = rnd.choice(comps)
+            elif not spread:
+                base = gen_component(rnd)
+            elif rnd.random() < .3:
+                base = gen_component(rnd)
+                _retime(rnd, base)
+            else:
+                base = gen_component_branches(rnd)
+            comps.append(_as_component(base, names[j], 3 if same_numbers else 3 + j,
+                                       0 if rnd.random() < .5 else rnd.randint(1, 4)))
+        par = gen_parent_multi(rnd, comps, spread)
+        if par is None:
+            continue
+        supply = [PARENT] + names
+        rnd.shuffle(supply)
+        case = {'libs': comps, 'app': par, 'text': TEXT, 'supply': supply}
+        if preconditions_hold(case):
+            return case
+
+
 def gen_case(seed, index):
+    if index >= MULTI_BASE:
+        return gen_case_multi(seed, index - MULTI_BASE)
     if index >= SPREAD_BASE:
         return gen_case_spread(seed, index - SPREAD_BASE)
     rnd = random.Random(seed * 7_000_003 + index)
@@ -708,8 +959,26 @@ def gen_case(seed, index):
 
 def preconditions_hold(case):
     """re-checks the generator's guarantees on a (possibly hand-edited) case"""
-    comp, par = case['lib'], case['app']
-    csp, psp = c06.Spec(comp), c06.Spec(par)
+    if 'libs' in case:
+        comps = case['libs']
+        names = [c['name'] for c in comps]
+        if not comps or len(set(names)) != len(names) or case['app']['name'] in names:
+            return False
+        supply = case.get('supply')
+        if supply is not None and sorted(supply) != sorted(names + [case['app']['name']]):
+            return False
+    else:
+        comps = [case['lib']]
+    par = case['app']
+    psp = c06.Spec(par)
+    if not all(_component_preconditions(comp, par, psp, case['text']) for comp in comps):
+        return False
+    ts = [c.get('t', 0) for h in comps + [par] for c in h['commits']]
+    return max(ts) - min(ts) < OBSOLETE_WINDOW
+
+
+def _component_preconditions(comp, par, psp, text):
+    csp = c06.Spec(comp)
     if not comp['branches']:
         return False
     reach = Counter()
@@ -719,7 +988,7 @@ def preconditions_hold(case):
     if len(comp['branches']) > 1:
         if len({h for _, h in comp['branches']}) != len(comp['branches']):
             return False
-        if any(k > 1 and case['text'] in csp.commits[c].get('msg', '') for c, k in reach.items()):
+        if any(k > 1 and text in csp.commits[c].get('msg', '') for c, k in reach.items()):
             return False
     nums = {c['id']: build_versions(c) for c in comp['commits'] if build_versions(c)}
     allv = [v for vs in nums.values() for v in vs]
@@ -742,8 +1011,7 @@ def preconditions_hold(case):
     for i, d in psp.commits.items():
         if not d.get('t', 0) > max(ct[c] for c in csp.anc_or_self(pin[i])) - COMPONENT_WINDOW:
             return False
-    ts = list(ct.values()) + [c.get('t', 0) for c in par['commits']]
-    return max(ts) - min(ts) < OBSOLETE_WINDOW
+    return True
 
 
 def n_histories(tier):
@@ -754,8 +1022,13 @@ def n_spread(tier):
     return 3200 if tier == 'quick' else 32000
 
 
+def n_multi(tier):
+    return 3200 if tier == 'quick' else 32000
+
+
 def case_indices(tier):
-    return list(range(n_histories(tier))) + [SPREAD_BASE + i for i in range(n_spread(tier))]
+    return (list(range(n_histories(tier))) + [SPREAD_BASE + i for i in range(n_spread(tier))]
+            + [MULTI_BASE + i for i in range(n_multi(tier))])
 
 
 HBLOCK = 50
@@ -788,7 +1061,13 @@ REACH = ['pin moving across >= 2 report-related component builds',
          'first-shipping parent build a day or more older than another report-related component build',
          'oldest report-related component build on a higher-sorted branch, first shipped by a parent build a day '
          'or more older than every report-related build of the lowest-sorted component branch',
-         'commit dates spread over >= 3 days']
+         'commit dates spread over >= 3 days',
+         'owner pinning >= 2 components: a build moves the pin of one component across a report-related build '
+         'while its pin of another component, which names a build with report content, stays where an earlier '
+         'build of the branch had it',
+         'the same between two identically shaped component histories (coinciding internal numbering), the '
+         'moved pin arriving at the position at which the other pin stays',
+         'owner pinning >= 2 components: one build first ships report-related builds of two components']
 
 
 def run(b):
@@ -833,7 +1112,16 @@ def run(b):
             continue
         facts, fails = hist_res[i]
         case = gen_case(b.seed, i)
-        b.case(case, nontrivial=facts['distinct_pins'] >= 2)
+        if i >= MULTI_BASE:
+            b.case(case, nontrivial=facts['distinct_pins'] >= 2 and facts['components_with_firsts'] >= 2)
+            if facts['one_pin_moves']:
+                b.hit(REACH[10])
+            if facts['one_pin_moves_to_twin_position']:
+                b.hit(REACH[11])
+            if facts['two_pins_move_at_once']:
+                b.hit(REACH[12])
+        else:
+            b.case(case, nontrivial=facts['distinct_pins'] >= 2)
         if facts['move_across_2']:
             b.hit(REACH[0])
         if facts['first_without_own_match']:
@@ -860,7 +1148,15 @@ def run(b):
         b.fail(f"C07.{clause}", f"C07.{clause}:{ksuf}", txt, case)
     b.notes['history_cases'] = n_histories(b.tier)
     b.notes['spread_cases'] = n_spread(b.tier)
-    sp = [f for i, (f, _) in hist_res.items() if i >= SPREAD_BASE]
+    sp = [f for i, (f, _) in hist_res.items() if SPREAD_BASE <= i < MULTI_BASE]
+    mu = [f for i, (f, _) in hist_res.items() if i >= MULTI_BASE]
+    b.notes['multi_cases'] = n_multi(b.tier)
+    b.notes['multi_three_components'] = sum(1 for f in mu if f['components'] >= 3)
+    b.notes['multi_nontrivial'] = sum(1 for f in mu if f['distinct_pins'] >= 2 and f['components_with_firsts'] >= 2)
+    b.notes['multi_one_pin_moves'] = sum(1 for f in mu if f['one_pin_moves'])
+    b.notes['multi_one_pin_moves_to_twin_position'] = sum(1 for f in mu if f['one_pin_moves_to_twin_position'])
+    b.notes['multi_two_pins_move_at_once'] = sum(1 for f in mu if f['two_pins_move_at_once'])
+    b.notes['multi_dates_spread'] = sum(1 for f in mu if f['span_days'] >= 1)
     b.notes['spread_multi_branch'] = sum(1 for f in sp if f['component_branches_with_builds'] >= 2)
     b.notes['spread_first_older_than_other_build'] = sum(1 for f in sp if f['first_older_than_other_build'])
     b.notes['spread_backport_pattern'] = sum(1 for f in sp if f['backport_pattern'])
@@ -882,23 +1178,37 @@ def shrink(case, clause, ksuf, txt):
                 return t
         return None
 
+    def hist_of(c, side):
+        return c['libs'][side] if isinstance(side, int) else c[side]
+
     def variants(c):
-        for side in ('app', 'lib'):
-            h = c[side]
+        if len(c.get('libs', [])) > 1:
+            for k in range(len(c['libs'])):         # the owner stops pinning one of its components
+                v = json.loads(json.dumps(c))
+                gone = v['libs'].pop(k)['name']
+                if 'supply' in v:
+                    v['supply'] = [r for r in v['supply'] if r != gone]
+                for x in v['app']['commits']:
+                    dep = json.loads(x['files']['DEPENDS'])
+                    dep.pop(gone, None)
+                    x['files']['DEPENDS'] = json.dumps(dep)
+                yield v
+        for side in (['app'] + list(range(len(c['libs']))) if 'libs' in c else ['app', 'lib']):
+            h = hist_of(c, side)
             used = {p for d in h['commits'] for p in d.get('parents', [])} | {hd for _, hd in h['branches']}
             for d in h['commits']:
                 if d['id'] not in used:
                     v = json.loads(json.dumps(c))
-                    v[side]['commits'] = [x for x in v[side]['commits'] if x['id'] != d['id']]
+                    hist_of(v, side)['commits'] = [x for x in hist_of(v, side)['commits'] if x['id'] != d['id']]
                     yield v
             if len(h['branches']) > 1:
                 for k in range(len(h['branches'])):
                     v = json.loads(json.dumps(c))
-                    del v[side]['branches'][k]
+                    del hist_of(v, side)['branches'][k]
                     yield v
             for d in h['commits']:
                 v = json.loads(json.dumps(c))
-                for x in v[side]['commits']:
+                for x in hist_of(v, side)['commits']:
                     if x['id'] == d['id']:
                         if side == 'app' and x.get('tags'):
                             del x['tags']
@@ -911,7 +1221,7 @@ def shrink(case, clause, ksuf, txt):
                     if d['id'] == hd:
                         for p in d.get('parents', []):
                             v = json.loads(json.dumps(c))
-                            v[side]['branches'][bi][1] = p
+                            hist_of(v, side)['branches'][bi][1] = p
                             yield v
     progress = True
     rounds = 0
